@@ -86,26 +86,33 @@ def bign_ops(rng, tier, sch, f, klass_prefix):
             g = list(f)
             g[i] = flip(f[i], 8 * no + rng.randrange(8 * (64 - no)))
             add(g, "tail-" + names[i], "0" if sch == "bign96" else None)
-    for i, j in ((1, 5), (2, 3), (3, 6), (5, 6), (1, 2)):
+    small = tier != "quick" or l <= 128       # quick tier: the full list on the smallest level, the decisive ones elsewhere
+    for i, j in (((1, 5), (2, 3), (3, 6), (5, 6), (1, 2)) if small else ((1, 5), (5, 6))):
         g = list(f)
         g[i], g[j] = f[j], f[i]
         add(g, "swap")
     p, a, b, q, y = lev(f[1]), lev(f[2]), lev(f[3]), lev(f[5]), lev(f[6])
     for k, qq in (("2q", 2 * q), ("q+2", q + 2), ("q-2", q - 2), ("3q", 3 * q), ("q=p", p), ("q+1", q + 1), ("q=0", 0), ("q=1", 1),
                   ("composite", (q | 1) * 3 % (1 << (8 * no)) | (1 << (8 * no - 1)) | 1)):
+        if not small and k not in ("2q", "q+2", "q=p", "composite"):
+            continue
         g = list(f)
         g[5] = hx(qq, 64) if qq < (1 << 512) else hx(qq % (1 << 512), 64)
         add(g, "q:" + k)
     for k, yy in (("neg", p - y), ("y+1", y + 1), ("y=0", 0), ("y>=p", y + p), ("y=1", 1)):
+        if not small and k not in ("neg", "y+1"):
+            continue
         g = list(f)
         g[6] = hx(yy, 64)
         add(g, "yG:" + k)
     for k, ll in (("l=0", 0), ("l=127", l - 1), ("l+64", l + 64), ("l=512", 512), ("l=96", 96), ("l=128", 128), ("l=256", 256)):
         g = list(f)
         g[0] = str(ll)
-        if ll != l:
+        if ll != l and (small or ll in (l - 1, 128, 256)):
             add(g, "l")
     for k, aa, bb in (("a=0", 0, b), ("b=0", a, 0), ("a>=p", a + p, b), ("b>=p", a, b + p), ("a+1", a + 1, b), ("b+1", a, b + 1)):
+        if not small and k not in ("a+1", "b+1"):
+            continue
         g = list(f)
         g[2], g[3] = hx(aa, 64), hx(bb, 64)
         add(g, "ab:" + k)
@@ -129,7 +136,7 @@ def bign_key_ops(rng, tier, sch, f, prefix):
     def kp(d, x, yy, k, exp):
         ops.append(Op("%skp %s %s %s" % (sch, par, hx(d, no), hx(x, no) + hx(yy, no)), exp, "%s:kp:%s" % (prefix, k)))
     # twist: y^2 = x^3 + a x + b has no solution for such x
-    cnt = (4 if no <= 32 else 2) if tier == "quick" else 30
+    cnt = (2 if no <= 32 else 1) if tier == "quick" else 30
     for _ in range(cnt):
         d = rng.randrange(1, q)
         Q = E.mul(d, G)
@@ -247,12 +254,21 @@ def g12s_expect(f):
     return "0"
 
 
-def g12s_ops(rng, tier, f, prefix):
+def g12s_ops(rng, tier, f, prefix, full=True):
     ops = []
 
     def add(g, k):
         ops.append(Op("g12sval " + " ".join(g), g12s_expect(g), "%s:%s" % (prefix, k)))
     add(f, "std")
+    if not full:
+        # quick tier, remaining sets: the decisive alterations only
+        n0, q0, p0 = int(f[5]), lev(f[4]), lev(f[1])
+        for k, i, v in (("cofactor:+1", 5, str(n0 + 1)), ("q:2q", 4, hx(2 * q0, 64)), ("q:q+2", 4, hx(q0 + 2, 64)),
+                        ("base:y+1", 7, hx((lev(f[7]) + 1) % p0, 68)), ("flip-b", 3, flip(f[3], 0)), ("flip-p", 1, flip(f[1], 1))):
+            g = list(f)
+            g[i] = v
+            add(g, k)
+        return ops
     l = int(f[0])
     p = lev(f[1])
     no = (p.bit_length() + 7) // 8
@@ -452,8 +468,12 @@ def stb99_expect(f):
     return "0"
 
 
-def chain_ok(xs, strict4):
-    """header rule: 5 x[i+1] / 4 (+ 4) < x[i] <= 2 x[i+1]; ends with an element of {17..32} followed by zeros"""
+SRC_RI_MARGIN = 0   # the margin stb99RiVal applies in the source (x_c12.extract_consts); the header says 0
+
+
+def chain_ok(xs, margin):
+    """header rule: 5 x[i+1] + margin < 4 x[i] <= 8 x[i+1] (margin 16: '5 x / 4 + 4 <', margin 0: '5 x / 4 <');
+    ends with an element of {17..32} followed by zeros"""
     t = 0
     while t + 1 < len(xs) and xs[t + 1] > 16:
         t += 1
@@ -464,14 +484,13 @@ def chain_ok(xs, strict4):
     if any(xs[t + 1:]):
         return False
     for i in range(t):
-        if not (xs[i] <= 2 * xs[i + 1] and 5 * xs[i + 1] + 16 < 4 * xs[i]):
+        if not (xs[i] <= 2 * xs[i + 1] and 5 * xs[i + 1] + margin < 4 * xs[i]):
             return False
     return True
 
 
 def stb99_seed_expect(f):
-    """f = [l, zi, di, ri] (comma lists).  The ri chain is judged with the rule the code applies (the same as for di);
-    stb99.h documents the weaker rule 5 ri[i+1] / 4 < ri[i] — see docs/C12.md (open question, not a verdict)."""
+    """f = [l, zi, di, ri] (comma lists), judged by the rules of stb99.h: di with '+ 4', ri without (docs/C12.fix-6.diff)."""
     l = int(f[0])
     lr = dict(STB99_LR)
     if l not in lr:
@@ -485,10 +504,12 @@ def stb99_seed_expect(f):
     ri += [0] * (10 - len(ri))
     if any(z == 0 or z > 65256 for z in zi):
         return "524"
-    if not (l <= 2 * di[0] and 8 * di[0] <= 7 * l - r) or not chain_ok(di, True):
+    if not (l <= 2 * di[0] and 8 * di[0] <= 7 * l - r) or not chain_ok(di, 16):
         return "524"
-    if ri[0] != r or not chain_ok(ri, True):
+    if ri[0] != r or not chain_ok(ri, 0):
         return "524"
+    if SRC_RI_MARGIN != 0 and not chain_ok(ri, SRC_RI_MARGIN):
+        return None     # stb99.h accepts, the source still applies the di rule to ri (docs/C12.fix-6.diff pending)
     return "0"
 
 
@@ -592,6 +613,12 @@ def stb99_ops(rng, tier, f, prefix):
             c3.append(c3[-1] // 2 + 1)
         c3 += [0] * (18 - len(c3))
         sd(zi, c3[:18], ri, "di0")
+    for off in (0, 1):
+        c3 = [ri[0]]
+        while c3[-1] > 32 and len(c3) < 10:
+            c3.append((4 * c3[-1] - 1) // 5 + off)
+        c3 += [0] * (10 - len(c3))
+        sd(zi, di, c3, "ri-steepest-header-rule+%d" % off)
     sd(zi, di, ri, "l", 639)
     sd(zi, di, ri, "l", 766)
     sd([0] * 31, [0] * 18, [0] * 10, "zero")
@@ -656,7 +683,7 @@ def pfok_ops(rng, tier, f, prefix):
         f2 = [str(ll), ",".join(map(str, zi_)), ",".join(map(str, li_))]
         lset = [a for a, _ in PFOK_LR]
         e = "0"
-        if ll not in lset or any(z == 0 or z > 65256 for z in zi_) or li_[0] != ll - 1 or not chain_ok(li_, True):
+        if ll not in lset or any(z == 0 or z > 65256 for z in zi_) or li_[0] != ll - 1 or not chain_ok(li_, 16):
             e = "524"
         ops.append(Op("pfokseedval " + " ".join(f2), e, "%s:seed:%s" % (prefix, k)))
     sd(zi, li, "std")
@@ -697,7 +724,7 @@ def irreducible_table(dmax):
 
 def poly_ops(rng, tier, bels):
     ops = []
-    dmax = 12 if tier == "quick" else 16
+    dmax = 10 if tier == "quick" else 16
     red = irreducible_table(dmax)
     for d in range(0, dmax + 1):
         exp = "".join("0" if (d == 0 or red[(1 << d) | c]) else "1" for c in range(1 << d))
@@ -763,7 +790,7 @@ def ecpgroup_ops(rng, tier, W):
         qno = max(1, (q.bit_length() + 7) // 8)
         ops.append(Op(pre + "ecpgroup %s %s %s %s %s %s %d %d" % (hx(p, no), hx(a, no), hx(b, no), hx(x, no), hx(y, no), hx(q, qno), cof, mov),
                       exp, "ecpgroup:" + k, W))
-    sizes = [5, 7, 8, 10, 16, 31, 32, 33, 63, 64, 65, 96, 127, 128, 129, 192, 256]
+    sizes = [5, 8, 16, 32, 33, 64, 65, 128, 129, 256] if tier == "quick" else [5, 7, 8, 10, 16, 31, 32, 33, 63, 64, 65, 96, 127, 128, 129, 192, 256]
     for bits in sizes:
         for _ in range(1 if tier == "quick" else 4):
             p = rand_prime(rng, bits)
@@ -849,9 +876,9 @@ def find_gf2_poly(m, W):
 def ec2group_ops(rng, tier, W):
     ops = []
     pre = "W32 " if W == 32 else ""
-    ms = [W + 3, W + 4, 2 * W - 1, 2 * W + 2, 163 if W == 64 else 3 * W + 3]   # even m: (c n - 2^m - 1)^2 = 4 2^m is reachable
+    ms = [W + 3, W + 4, 2 * W + 2]   # even m: (c n - 2^m - 1)^2 = 4 2^m is reachable
     if tier != "quick":
-        ms += [W + 5, W + 9, W + 21, 2 * W + 7, 3 * W - 1, 3 * W + 3, 4 * W + 1, 163, 233]
+        ms += [W + 5, W + 9, W + 15, W + 21, 2 * W - 1, 2 * W + 7, 3 * W - 1, 3 * W + 3, 4 * W + 1, 163, 233]
     for m in ms:
         pd, md = find_gf2_poly(m, W)
         if pd is None:
@@ -898,9 +925,9 @@ def ec2group_ops(rng, tier, W):
     return ops
 
 
-def generate(ctx, std, bels, lr_stb, lr_pfok):
-    global STB99_LR, PFOK_LR
-    STB99_LR, PFOK_LR = lr_stb, lr_pfok
+def generate(ctx, std, bels, lr_stb, lr_pfok, ri_margin=0):
+    global STB99_LR, PFOK_LR, SRC_RI_MARGIN
+    STB99_LR, PFOK_LR, SRC_RI_MARGIN = lr_stb, lr_pfok, ri_margin
     rng, tier = ctx.rng, ctx.tier
     ops = []
     for (sch, name), f in std.items():
@@ -910,11 +937,11 @@ def generate(ctx, std, bels, lr_stb, lr_pfok):
             ops += bign_ops(rng, tier, sch, f, prefix)
             ops += bign_key_ops(rng, tier, sch, f, prefix)
         elif sch == "g12s":
-            ops += g12s_ops(rng, tier, f, prefix)
+            ops += g12s_ops(rng, tier, f, prefix, tier != "quick" or name in ("1.2.643.2.2.35.1", "1.2.643.7.1.2.1.2.1"))
         elif sch == "dstu":
             m = int(f[0])
-            heavy = tier != "quick" or m <= 191
-            light = tier == "quick" and m > 191
+            heavy = tier != "quick" or m <= 173
+            light = tier == "quick" and m > 163
             ops += dstu_ops(rng, tier, 64, f, prefix, heavy, light)
             if m == 163 or tier != "quick":
                 ops += dstu_ops(rng, tier, 32, f, prefix + "/w32", heavy, light or tier == "quick")
@@ -940,6 +967,14 @@ def generate(ctx, std, bels, lr_stb, lr_pfok):
             z[0] = str(int(z[0]) % 65256 + 1)
             g[1] = ",".join(z)
             ops.append(Op("stb99gen " + " ".join(g), None, "gen:stb99-other-zi-" + name))
+    zi = ",".join(str(i + 1) for i in range(31))
+    hdr = [("1232,617,309,155,78,40,21", "257,205,163,130,103,82,65,51,40,31"),
+           ("1897,1514,1207,962,766,609,483,383,303,239,187,146,113,87,66,49,35,24", "257,205,163,130,103,82,65,51,40,31"),
+           ("1897,1514,1207,962,766,609,483,383,303,239,187,146,113,87,66,49,35,24", "257,129,65,33,17")]
+    for di_, ri_ in hdr:
+        g = ["2462", zi, di_, ri_]
+        ops.append(Op("stb99seedval " + " ".join(g), stb99_seed_expect(g), "corpus:stb99-header-example-chains",
+                      note="the chains of maximal length given in stb99.h (docs/C12.fix-6.diff)"))
     ops += bign_custom_field_ops(rng, tier)
     ops += poly_ops(rng, tier, bels)
     for W in (64, 32):
